@@ -123,16 +123,16 @@ func runOne(j job) (res result, trace string) {
 		}
 		return v
 	})
-	vm.Set("reenterq", func(call goja.FunctionCall) goja.Value {
-		// re-entrant RunProgram whose error the native swallows (a catchable script exception only: uncatchable conditions travel on)
-		_, err := vm.RunString(call.Argument(0).String())
+	vm.Set("reenterq", func(src string) string {
+		// re-entrant RunProgram from a reflect-wrapped Go function that swallows the error (an interrupt travels on)
+		_, err := vm.RunString(src)
 		if err != nil {
-			if _, ok := err.(*goja.Exception); ok {
-				return vm.ToValue("err")
+			if _, ok := err.(*goja.InterruptedError); ok {
+				panic(err)
 			}
-			panic(err)
+			return "err" // (also a stack overflow of the nested run: the host is free to carry on)
 		}
-		return vm.ToValue("ok")
+		return "ok"
 	})
 	vm.Set("expect", func(call goja.FunctionCall) goja.Value {
 		// a scenario's own assertion about the frame it runs in
